@@ -168,9 +168,11 @@ pub fn generate(out: &mut Out, rng: &Prng, thorough: bool, workdir: &std::path::
                     for _ in 0..n {
                         let k = 1 + irng2.below(w.ports.len() as u64) as usize;
                         if let Some((iop, class)) = ignored_frame(&irng2, w, k) {
-                            let before = obs_with.split(" | R ok | ").nth(1).unwrap_or("").to_string();
+                            // the lock trace (" | L …") is how the call went about it, not an effect
+                            let state_of = |x: &str| x.split(" | R ok | ").nth(1).unwrap_or("").split(" | L ").next().unwrap_or("").to_string();
+                            let before = state_of(&obs_with);
                             let o = st.0.exec(&iop);
-                            let after = o.split(" | R ok | ").nth(1).unwrap_or("").to_string();
+                            let after = state_of(&o);
                             let silent = o.starts_with("- | R ok | ") && (after == before || before.is_empty());
                             st.1.push((format!("{iop} #ins:{class}"), format!("{o}\tinserted:{class}:{}", if silent { "silent" } else { "EFFECT" })));
                             st.2 += 1;
